@@ -100,13 +100,8 @@ def run(cx):
     # ---- C18-TICKREG -------------------------------------------------------------------------
     r = cx.rule("C18-TICKREG", "every animate() registers its display for ticking in a set, parse() injects exactly one tick per display (sorted) at the head of loop(), every started animation gets a state global and exactly one tick call per loop() pass", floor=8)
     psl, pf = pm.func("_parse_simple_lines"), pm.func("parse")
-    loc = Locals(psl)
-    tn = loc.defs.get("lcd_tick_names", [])
-    r.check(len(tn) == 1 and norm(tn[0]) == "ctx.setdefault('lcd_tick_names', set())", "parser/tick-names-is-a-set", (pm, psl), f"lcd_tick_names is `{norm(tn[0]) if tn else '?'}`: a list would inject one tick per animate() call")
-    anim_ctor = [n for n in walk_local(psl) if isinstance(n, ast.Call) and call_name(n) == "LCDAnimate"]
-    regs = [n for n in walk_local(psl) if isinstance(n, ast.Call) and norm(n.func) == "lcd_tick_names.add" and [norm(a) for a in n.args] == ["name"]]
-    okr = len(anim_ctor) == 1 and len(regs) == 1 and any(isinstance(a, ast.If) and any(x is regs[0] for x in ast.walk(a)) and any(x is anim_ctor[0] for x in ast.walk(a)) for a in pm.ancestors(anim_ctor[0]))
-    r.check(okr, "parser/animate-registers-tick", (pm, psl), "the animate arm must add the display to lcd_tick_names in the same block that builds the LCDAnimate node")
+    # (that every animate() registers its display exactly once is decided on scripts below: two animations on one display,
+    # animations started inside the loop)
     for n_anim in (1, 2, 3):
         anims = [cls["LCDAnimate"](name="dev", animation=styles[i % len(styles)], row=i % 2, text="H_text_text", speed_ms="H_s", loop="H_l") for i in range(n_anim)]
         res = pe.emit_program(setup=[l2.lcd_decl("i2c")] + anims, loop=[cls["LCDTick"](name="dev")])
@@ -145,6 +140,7 @@ def run(cx):
         "explicit-tick-in-loop": (head + "lcd.animate('scroll', 0, 'hello world', speed_ms=0)\nwhile True:\n    lcd.tick()\n    sleep(10)\n", {"lcd": 1}),
         "explicit-tick(now)-in-loop": (head + "lcd.animate('blink', 0, 'hi', speed_ms=0)\nwhile True:\n    x = x + 10\n    lcd.tick(x)\n", {"lcd": 1}),
         "explicit-tick-under-if": (head + "lcd.animate('bounce', 0, 'hi', speed_ms=0)\nwhile True:\n    if x > 2:\n        lcd.tick()\n    x = x + 1\n", {"lcd": 1}),
+        "animate-inside-the-loop": (head + "while True:\n    if x > 2:\n        lcd.animate('scroll', 0, 'late', speed_ms=0)\n        lcd.animate('blink', 1, 'later', speed_ms=0)\n    x = x + 1\n", {"lcd": 1}),
         "two-displays": (head + "lcd.animate('scroll', 0, 'a', speed_ms=0)\nlcd2.animate('typewriter', 1, 'b', speed_ms=0)\nlcd.animate('blink', 1, 'c', speed_ms=0)\nwhile True:\n    lcd2.tick()\n    sleep(1)\n", {"lcd": 1, "lcd2": 1}),
     }
 
